@@ -722,6 +722,12 @@ func (s *Session) next(i bool) *com.Packet {
 		s.state.SetLast(0)
 		return n
 	}
+	// KeyCrypt: A Packet carrying key material is never merged into a Multi
+	//           Packet, the receiver only looks for it in the outer Packet.
+	if n.Flags&com.FlagCrypt != 0 && verifyPacket(n, s.ID) {
+		s.accept(n.Job)
+		return n
+	}
 	t := n.Tags
 	if l := s.state.Last(); l > 0 {
 		for n.Flags.Group() == l && len(s.send) > 0 {
